@@ -42,6 +42,22 @@ fn one<G: GraphLike>(a: &Value, be: &str) -> Value {
     }
 }
 
+/// the same diagram with drawing coordinates scattered over the vertices (rows of outputs below rows of inputs, interior
+/// rows outside the boundary rows, ...): the tensor must not depend on them
+fn one_with_coords<G: GraphLike>(a: &Value, be: &str, seed: u64) -> Value {
+    use rand::Rng;
+    let mut g: G = build(a);
+    let mut r = crate::gens::rng(seed);
+    for v in g.vertex_vec() {
+        g.set_row(v, r.random_range(-4..=10) as f64 * 0.5);
+        g.set_qubit(v, r.random_range(-2..=6) as f64 * 0.5);
+    }
+    match guarded(|| (g.to_tensor4(), g.to_tensorf())) {
+        Err(msg) => json!({"k": "tensor", "be": be, "coords": "scattered", "res": "panic", "msg": msg}),
+        Ok((t4, tf)) => json!({"k": "tensor", "be": be, "coords": "scattered", "res": "ok", "rank": t4.ndim(), "t": t4_json(&t4), "fok": float_close(&t4, &tf)}),
+    }
+}
+
 pub fn record_diagram(a: &Value, tr: &mut Tr) {
     tr.group();
     tr.emit(json!({"k": "reset", "pre": a}));
@@ -60,6 +76,13 @@ pub fn record_diagram(a: &Value, tr: &mut Tr) {
     } else {
         tr.emit(ev);
         tr.emit(eh);
+    }
+    let txt = a.to_string();
+    let seed = txt.bytes().fold(1469598103934665603u64, |h, b| (h ^ b as u64).wrapping_mul(1099511628211));
+    if seed % 2 == 0 {
+        tr.emit(one_with_coords::<quizx::vec_graph::Graph>(a, "vec", seed));
+    } else {
+        tr.emit(one_with_coords::<quizx::hash_graph::Graph>(a, "hash", seed));
     }
 }
 
